@@ -90,6 +90,10 @@ func writeInvertedCffTag(w io.Writer, bs []byte) error {
 	errw := stickyErrWriter{W: w}
 	w = &errw
 
+	// A byte order mark at the beginning of the file is not part of its
+	// first line: the go tool ignores it when it looks for constraints.
+	bs = bytes.TrimPrefix(bs, []byte("\xef\xbb\xbf"))
+
 	// For each line before the package clause,
 	// if it's a build constraint that contains "cff", invert "cff".
 	scan := bufio.NewScanner(bytes.NewReader(bs))
